@@ -49,8 +49,10 @@ func NewSender(writeI shipapi.ShipConnectionDataWriterInterface) api.SenderInter
 
 // return the datagram for a given msgCounter (only availbe for Notify messasges!), error if not found
 func (c *Sender) DatagramForMsgCounter(msgCounter model.MsgCounterType) (model.DatagramType, error) {
-	c.muxNotifyCache.RLock()
-	defer c.muxNotifyCache.RUnlock()
+	// the cache's Get moves the entry to the front of its list, i.e. it
+	// modifies the cache: a shared lock is not enough
+	c.muxNotifyCache.Lock()
+	defer c.muxNotifyCache.Unlock()
 
 	if datagram, ok := c.datagramNotifyCache.Get(msgCounter); ok {
 		return datagram, nil
